@@ -163,7 +163,7 @@ def run_case(case, world):
                     continue
                 expected = ['ok', ML.value_to_canon(mval)]
             except ML.ModelError as e:
-                expected = ['error', e.code]
+                expected = ['error', e.code, str(e)]
             flags = set(interp.flags)
             flags_seen |= flags
             world.event(('prog', idx, text))
@@ -188,11 +188,16 @@ def run_case(case, world):
                             violate('MODEL_MISMATCH', what, '%s raised %r, reference interpreter gives %r' % (
                                 text, canon_exc(err), expected[1]), flags, ['engine-error'])
                         else:
-                            world.probe('non-ep-exception-logged')
+                            # the program has a value in the model: no value at all is a mismatch whatever is raised
+                            violate('MODEL_MISMATCH', what, '%s raised %r, reference interpreter gives %r' % (
+                                text, canon_exc(err), expected[1]), flags, ['engine-error', 'non-ep-exception'])
                     continue
                 world.event(('result', idx, outcome[1]))
                 if expected[0] == 'error':
-                    if expected[1] == 'XPST0008':
+                    if expected[1] == 'XPTY0004' and 'arity' in expected[2]:
+                        violate('MODEL_MISMATCH', what, '%s returned %r although a function item is called with the wrong '
+                                'number of arguments' % (text, outcome[1]), flags, ['missing-arity-error'])
+                    elif expected[1] == 'XPST0008':
                         violate('MODEL_MISMATCH', what, '%s returned %r but reads a variable that is not in scope (%s)' % (
                             text, outcome[1], expected[1]), flags, ['missing-XPST0008'] + extra_feats)
                     else:
